@@ -45,6 +45,9 @@ type Req struct {
 	Port         int    `json:"port"` // -1: not written
 	Path         string `json:"path"`
 	HostOverride string `json:"host_override,omitempty"` // req.Host set by the caller
+	// EmptyHost: the caller leaves req.Host empty (a hand-built http.Request;
+	// net/http then sends URL.Host).
+	EmptyHost bool `json:"empty_host,omitempty"`
 	Method       string `json:"method"`
 	BodyLen      int    `json:"body_len,omitempty"`
 	RespSize     int    `json:"resp_size"`
@@ -106,8 +109,8 @@ type Engine struct{}
 func (Engine) Name() string { return "e4web" }
 
 const (
-	runsQuick    = 3000
-	runsThorough = 240000
+	runsQuick    = 6000
+	runsThorough = 480000
 )
 
 func (Engine) Runs(prop, tier string) int {
